@@ -324,16 +324,8 @@ func c07Object(c *Ctx, emit *ssa.Function) {
 			} else {
 				valW = in
 				for _, v := range phiClosure(a) {
-					if ex, ok := v.(*ssa.Extract); ok {
-						if call, ok := ex.Tuple.(*ssa.Call); ok && isFunc(call.Call.StaticCallee(), "encoding/json", "Marshal") {
-							// Marshal(cells[i].Item()) / Marshal(cells[i].String())
-							arg := unwrap(call.Call.Args[0], true)
-							if src, ok := arg.(*ssa.Call); ok && len(src.Call.Args) > 0 {
-								if _, idx := sectionOfAny(src.Call.Args[0]); idx != nil {
-									valIdx = idx
-								}
-							}
-						}
+					if idx := marshalledCellIndex(v, 0); idx != nil {
+						valIdx = idx
 					}
 				}
 			}
@@ -407,4 +399,82 @@ func c07Object(c *Ctx, emit *ssa.Function) {
 		}
 	}
 	r.Check("R07.4", name, "a cell is omitted only when its column is skipable and the cell is empty", sepWrite.Call.Pos(), skipOK && nskip == 2, why)
+}
+
+// marshalledCellIndex: v is (a result of) json.Marshal applied to something read from cells[idx] -- directly, or
+// inside a module helper that is handed cells[idx] and returns the Marshal result of a value read from that
+// parameter. Returns idx.
+func marshalledCellIndex(v ssa.Value, depth int) ssa.Value {
+	ex, ok := v.(*ssa.Extract)
+	if !ok || depth > 2 {
+		return nil
+	}
+	call, ok := ex.Tuple.(*ssa.Call)
+	if !ok {
+		return nil
+	}
+	f := call.Call.StaticCallee()
+	if isFunc(f, "encoding/json", "Marshal") {
+		// Marshal(cells[i].Item()) / Marshal(cells[i].String())
+		arg := unwrap(call.Call.Args[0], true)
+		if src, ok := arg.(*ssa.Call); ok && len(src.Call.Args) > 0 {
+			if _, idx := sectionOfAny(src.Call.Args[0]); idx != nil {
+				return idx
+			}
+		}
+		return nil
+	}
+	if f == nil || !inModule(f) || f.Blocks == nil {
+		return nil
+	}
+	for pi, a := range call.Call.Args {
+		_, idx := sectionOfAny(a)
+		if idx == nil {
+			continue
+		}
+		// every non-nil result of the helper is Marshal of something derived from that parameter
+		okAll, n := true, 0
+		for _, ret := range returnsOf(f) {
+			for _, rv := range phiClosure(results(ret)[ex.Index]) {
+				if k, isK := rv.(*ssa.Const); isK && k.Value == nil {
+					continue
+				}
+				rex, isEx := rv.(*ssa.Extract)
+				if !isEx {
+					okAll = false
+					continue
+				}
+				rc, isCall := rex.Tuple.(*ssa.Call)
+				if !isCall || !isFunc(rc.Call.StaticCallee(), "encoding/json", "Marshal") || !derivesFrom(rc.Call.Args[0], f.Params[pi], 0) {
+					okAll = false
+					continue
+				}
+				n++
+			}
+		}
+		if okAll && n > 0 {
+			return idx
+		}
+	}
+	return nil
+}
+
+// derivesFrom: src occurs among the transitive operands of v (bounded).
+func derivesFrom(v, src ssa.Value, depth int) bool {
+	if v == src {
+		return true
+	}
+	if depth > 8 {
+		return false
+	}
+	in, ok := v.(ssa.Instruction)
+	if !ok {
+		return false
+	}
+	for _, op := range in.Operands(nil) {
+		if op != nil && *op != nil && derivesFrom(*op, src, depth+1) {
+			return true
+		}
+	}
+	return false
 }
